@@ -17,7 +17,7 @@ def build(t):
         for v, p in enumerate(tr["par"]):
             if p > 0:
                 A[p - 1, v] = 1
-        out.append((A.tocsr(), np.array([TOKS[l] for l in tr["lab"]])))
+        out.append((A.asformat(t.get("fmt", "csr")), np.array([TOKS[l] for l in tr["lab"]])))
     return out
 
 
